@@ -44,6 +44,9 @@ pub struct WireState {
     pub eof_at_end: bool,
     /// after everything available has been consumed, recvmsg fails with this
     pub read_error: Option<io::ErrorKind>,
+    /// fault injection: after this many inbound bytes have been delivered the transport fails
+    /// (reads then see `read_error` or EOF, writes BrokenPipe)
+    pub read_limit: Option<usize>,
     pub read_waker: Option<Waker>,
     pub recv_calls: u64,
     pub recv_pending: u64,
@@ -86,6 +89,7 @@ impl Wire {
             avail: VecDeque::new(),
             eof_at_end: false,
             read_error: None,
+            read_limit: None,
             read_waker: None,
             recv_calls: 0,
             recv_pending: 0,
@@ -279,8 +283,26 @@ impl ReadHalf for ScriptRead {
                 w.max_recv_request = w.max_recv_request.max(buf.len());
                 counted = true;
             }
+            if let Some(limit) = w.read_limit {
+                if w.bytes_delivered >= limit {
+                    // the injected fault: the transport is gone in both directions
+                    w.failed = true;
+                    w.stalled = false;
+                    if let Some(wk) = w.write_waker.take() {
+                        wk.wake();
+                    }
+                    return match w.read_error {
+                        Some(k) => Poll::Ready(Err(io::Error::new(k, "injected read fault"))),
+                        None => Poll::Ready(Ok((0, vec![]))),
+                    };
+                }
+            }
+            let limit_left = w.read_limit.map(|l| l - w.bytes_delivered);
             if let Some(front) = w.avail.front_mut() {
-                let n = front.bytes.len().min(buf.len());
+                let mut n = front.bytes.len().min(buf.len());
+                if let Some(l) = limit_left {
+                    n = n.min(l);
+                }
                 buf[..n].copy_from_slice(&front.bytes[..n]);
                 front.bytes.drain(..n);
                 let fds = std::mem::take(&mut front.fds);
@@ -293,7 +315,10 @@ impl ReadHalf for ScriptRead {
                 return Poll::Ready(Ok((n, fds)));
             }
             if w.staged.is_empty() {
-                if let Some(k) = w.read_error {
+                if let (Some(k), None) = (w.read_error, w.read_limit) {
+                    return Poll::Ready(Err(io::Error::new(k, "scripted read error")));
+                }
+                if let (Some(k), true) = (w.read_error, w.failed) {
                     return Poll::Ready(Err(io::Error::new(k, "scripted read error")));
                 }
                 if w.eof_at_end || w.failed {
